@@ -381,9 +381,24 @@ def agree_ref(ctx, fi, ref_src, title, what=('return', 'heap', 'substores'), rul
                 else:
                     out.append(e)
             return out
-        _match_groups(ctx, rule, title, fi, 'attribute update', sel(I, own), sel(IR, None),
+        # in a CONSTRUCTOR a store on a path that goes on to raise is never seen (the object is discarded): there the guard of
+        # an update is taken together with "the constructor completes", so validating before or after assigning is the same
+        completes = {}
+        if fi.name == '__init__':
+            for res_, II_ in ((r, I), (rr, IR)):
+                done_ = T.mk_or([c for c, _ in getattr(res_, 'returns', [])] + ([res_.live] if getattr(res_, 'live', None) is not None else []))
+                completes[id(II_)] = done_
+        ea_, eb_ = sel(I, own), sel(IR, None)
+        side = {id(e): id(I) for e in ea_}
+        side.update({id(e): id(IR) for e in eb_})
+
+        def guard_of_store(e):
+            g = e.cond()
+            n_ = completes.get(side.get(id(e)))
+            return T.mk_and([g, n_]) if n_ is not None and n_.key != T.TRUE.key else g
+        _match_groups(ctx, rule, title, fi, 'attribute update', ea_, eb_,
                       lambda e: [('object', e.data['base']), ('attribute', lift(e.data['name'])), ('value', e.data['value']),
-                                 ('guard', e.cond())], txt)
+                                 ('guard', guard_of_store(e))], txt)
     if 'loopstores' in what:
         def sell(II, o):
             return [e for e in II.events if e.kind == 'store' and e.data.get('target') == 'name' and e.loops
